@@ -986,4 +986,164 @@ theorem Burst.run {f cs c t k B now H ths} (bu : Burst f cs c t k B now H ths) (
     exact ih (bu.step hc hf hcap i hw.1) hw.2
 
 
+/-! ## the executed general definitions restricted to reject-only rule lists are the core -/
+
+def RejectOnly (cs : List Ctrl) : Prop := ∀ c ∈ cs, c.rule.kind = .reject
+
+theorem reloadFrom_nil_eq_loadFrom (rules : List Rule) (hk : ∀ r ∈ rules, r.kind = .reject) (now i : Nat) (acc : St) :
+    reloadFrom [] acc now i rules = loadFrom acc now i rules := by
+  induction rules generalizing acc i with
+  | nil => rfl
+  | cons r rs ih =>
+    have hr := hk r (List.mem_cons_self ..)
+    have ih' := fun acc i => ih (fun x hx => hk x (List.mem_cons_of_mem _ hx)) i acc
+    simp only [reloadFrom, loadFrom, List.map_nil, reuseIdx, mkCtrlG, hr]
+    by_cases hv : r.valid = true
+    · simp only [hv, if_true]
+      cases mkCtrl i r now <;> simp only [ih']
+    · simp only [hv]
+      exact ih' acc (i + 1)
+
+theorem loadFrom_rejectOnly (rules : List Rule) (hk : ∀ r ∈ rules, r.kind = .reject) (now i : Nat) (acc : St)
+    (ha : RejectOnly acc.ctrls) : RejectOnly (loadFrom acc now i rules).ctrls := by
+  induction rules generalizing acc i with
+  | nil => exact ha
+  | cons r rs ih =>
+    have hr := hk r (List.mem_cons_self ..)
+    have ih' := fun acc i ha => ih (fun x hx => hk x (List.mem_cons_of_mem _ hx)) i acc ha
+    simp only [loadFrom]
+    split_ifs
+    · cases hm : mkCtrl i r now with
+      | none => exact ih' _ _ ha
+      | some c =>
+        apply ih'
+        intro x hx
+        rcases List.mem_append.mp hx with h | h
+        · exact ha x h
+        · simp at h; subst h
+          unfold mkCtrl at hm
+          split at hm <;> simp at hm <;> subst hm <;> exact hr
+    · exact ih' _ _ ha
+
+/-- a first load of reject rules through the general loader is the core `load` -/
+theorem reloadG_eq_load (rules : List Rule) (hk : ∀ r ∈ rules, r.kind = .reject) (now : Nat) :
+    reloadG {} rules now 0 = load rules now :=
+  reloadFrom_nil_eq_loadFrom rules hk now 0 _
+
+theorem load_rejectOnly (rules : List Rule) (hk : ∀ r ∈ rules, r.kind = .reject) (now : Nat) :
+    RejectOnly (load rules now).ctrls :=
+  loadFrom_rejectOnly rules hk now 0 {} (by intro c hc; simp at hc)
+
+theorem chainG_eq_checkList (cs : List Ctrl) (hk : RejectOnly cs) (ns : Nodes) (res b t : Nat) :
+    chainG (modelOps ns) res b cs t = (cs, t, checkList cs ns res (t / nsPerMs) b) := by
+  induction cs with
+  | nil => rfl
+  | cons c r ih =>
+    have hc := hk c (List.mem_cons_self ..)
+    have ih' := ih (fun x hx => hk x (List.mem_cons_of_mem _ hx))
+    simp only [chainG, checkList, modelOps, hc]
+    by_cases hr : c.rule.res = res
+    · simp only [hr, ne_eq, not_true_eq_false, if_false, true_and]
+      by_cases hb : c.blocks ns (t / nsPerMs) b = true
+      · simp [hb]
+      · simp only [hb]
+        have := ih'
+        simp only [modelOps] at this
+        rw [this]
+        simp
+    · simp only [hr, ne_eq, not_false_eq_true, if_true, false_and, if_false]
+      have := ih'
+      simp only [modelOps] at this
+      rw [this]
+
+/-- one entry through the general slot = the core `entry` at the millisecond of `t`; no time passes -/
+theorem entryG_eq_entry (s : St) (hk : RejectOnly s.ctrls) (res t b : Nat) :
+    entryG s res t b = ((entry s res (t / nsPerMs) b).1, t, (entry s res (t / nsPerMs) b).2) := by
+  unfold entryG checkPhaseG
+  simp only [chainG_eq_checkList s.ctrls hk]
+  rfl
+
+theorem entry_rejectOnly (s : St) (hk : RejectOnly s.ctrls) (res now b : Nat) : RejectOnly (entry s res now b).1.ctrls := by
+  have he : (entry s res now b).1 =
+      statPhase { s with nodes := ensure s.nodes res now } res now b (checkList s.ctrls (ensure s.nodes res now) res now b) := rfl
+  rw [he]
+  cases checkList s.ctrls (ensure s.nodes res now) res now b with
+  | some i => exact hk
+  | none =>
+    intro c hc
+    simp only [statPhase, standaloneRecord_eq, List.mem_map] at hc
+    obtain ⟨c0, hc0, rfl⟩ := hc
+    rw [(recOne_facts res now b c0).2.1]
+    exact hk c0 hc0
+
+/-- what the driver does with a list of arrivals: `clock a.t` (never backwards), then the entry -/
+def runG (s : St) (t : Nat) : List Arrival → St × List (Option Nat)
+  | [] => (s, [])
+  | a :: r =>
+    let x := entryG s a.res (max t (a.t * nsPerMs)) a.b
+    let y := runG x.1 x.2.1 r
+    (y.1, x.2.2 :: y.2)
+
+theorem runG_eq_runEntries (s : St) (hk : RejectOnly s.ctrls) (t0 : Nat) (as : List Arrival) (hm : MonoA t0 as) :
+    runG s (t0 * nsPerMs) as = runEntries s as := by
+  induction as generalizing s t0 with
+  | nil => rfl
+  | cons a r ih =>
+    have hmax : max (t0 * nsPerMs) (a.t * nsPerMs) = a.t * nsPerMs :=
+      max_eq_right (Nat.mul_le_mul_right _ hm.1)
+    have hdiv : a.t * nsPerMs / nsPerMs = a.t := Nat.mul_div_cancel _ (by decide)
+    simp only [runG, runEntries, hmax, entryG_eq_entry s hk, hdiv]
+    rw [ih _ (entry_rejectOnly s hk a.res a.t a.b) a.t hm.2]
+
+
+/-- **the chain walk is the same function for the model and for the reference**: if two controller lists are
+related pairwise (same rule, same id, same `lastPassedTime`) and their reject rules answer alike from the current
+millisecond on, the walk yields the same decision and the same clock, and leaves related lists. The throttling
+part needs no hypothesis: both sides run `Throttle.doCheck` on equal data. -/
+theorem chainG_rel {α β : Type} (A : ChainOps α) (B : ChainOps β) (R : α → β → Prop)
+    (hrule : ∀ a b, R a b → A.rule a = B.rule b ∧ A.idx a = B.idx b ∧ A.last a = B.last b)
+    (hset : ∀ a b l, R a b → R (A.setLast a l) (B.setLast b l))
+    (res bt : Nat) (as : List α) (bs : List β) (hR : List.Forall₂ R as bs) (t : Nat)
+    (hblk : ∀ a b, R a b → ∀ ms, t / nsPerMs ≤ ms → A.blocks a ms bt = B.blocks b ms bt) :
+    (chainG A res bt as t).2 = (chainG B res bt bs t).2 ∧
+    List.Forall₂ R (chainG A res bt as t).1 (chainG B res bt bs t).1 := by
+  induction hR generalizing t with
+  | nil => exact ⟨rfl, List.Forall₂.nil⟩
+  | @cons a b as' bs' hab _ ih =>
+    obtain ⟨h1, h2, h3⟩ := hrule a b hab
+    simp only [chainG, h1, h2, h3]
+    by_cases hr : (B.rule b).res ≠ res
+    · rw [if_pos hr, if_pos hr]
+      obtain ⟨e, f⟩ := ih t hblk
+      exact ⟨by simp [e], List.Forall₂.cons hab f⟩
+    · rw [if_neg hr, if_neg hr]
+      cases hk : (B.rule b).kind with
+      | reject =>
+        simp only
+        rw [hblk a b hab _ (le_refl _)]
+        by_cases hb : B.blocks b (t / nsPerMs) bt = true
+        · simp only [hb, if_true]
+          exact ⟨trivial, List.Forall₂.cons hab ‹_›⟩
+        · simp only [hb, Bool.false_eq_true, if_false]
+          obtain ⟨e, f⟩ := ih t hblk
+          exact ⟨by simp [e], List.Forall₂.cons hab f⟩
+      | throttle maxQ =>
+        simp only
+        rcases hd : Throttle.doCheck ((maxQ * nsPerMs : Nat) : Int) (B.last b) (t : Int)
+            (throttleReq (B.rule b).thr (B.rule b).iv bt) with ⟨l, o⟩
+        cases o with
+        | block =>
+          simp only
+          exact ⟨trivial, List.Forall₂.cons (hset a b l hab) ‹_›⟩
+        | pass =>
+          simp only
+          obtain ⟨e, f⟩ := ih t hblk
+          exact ⟨by simp [e], List.Forall₂.cons (hset a b l hab) f⟩
+        | wait w =>
+          simp only
+          have hmono : t / nsPerMs ≤ (t + w.toNat) / nsPerMs := Nat.div_le_div_right (Nat.le_add_right _ _)
+          obtain ⟨e, f⟩ := ih (t + w.toNat) (fun a b hab ms hms => hblk a b hab ms (le_trans hmono hms))
+          exact ⟨by simp [e], List.Forall₂.cons (hset a b l hab) f⟩
+
+
 end Sentinel.FlowReject
